@@ -1180,6 +1180,14 @@ package yang
 // (two modules) by the dictionary key -- module name first -- which differs
 // for any two identities of one set, so the order never depends on the
 // iteration order of the dictionary.
+// A derivation cycle is reported: in the closure loop of resolveIdentities, an
+// identity that is found among the identities derived from it (the list
+// addChildren built) has an error appended before the list is sorted and stored.
+//@ func (*Modules).resolveIdentities props C11
+//@   only before:sort.SliceStable loop9/
+//@   before[an-identity-among-its-own-derivations-is-reported] sort.SliceStable (exists k int :: 0 <= k && k < len(newValues) && newValues[k] == i.Identity) ==> len(errs) > 0
+//@   loop 9
+//@     invariant forall k int :: 0 <= k && k < _k ==> newValues[k] != i.Identity
 //@ func (*Modules).resolveIdentities$1 props C11 C05
 //@   requires 0 <= j && j < len(newValues) && 0 <= k && k < len(newValues) && (forall m *Module :: modOK(m))
 //@   requires forall i int :: 0 <= i && i < len(newValues) ==> newValues[i] != nil && rootOf(iface(newValues[i])) != nil && nsOwner(rootOf(iface(newValues[i]))) != nil
